@@ -27,6 +27,7 @@ type Handler struct {
 	session       *packet.Session
 	probeInterval time.Duration // how often to probe if IP is online
 	huntList      map[string]packet.Addr
+	loops         map[string]bool // macs with a spoof loop running (a stopped loop only notices at its next wake up)
 	closed        bool
 	closeChan     chan bool
 }
@@ -45,7 +46,7 @@ func New(session *packet.Session) (h *Handler, err error) {
 }
 
 func (config Config) New(session *packet.Session) (h *Handler, err error) {
-	h = &Handler{session: session, huntList: make(map[string]packet.Addr, 6), closeChan: make(chan bool)}
+	h = &Handler{session: session, huntList: make(map[string]packet.Addr, 6), loops: make(map[string]bool, 6), closeChan: make(chan bool)}
 	if !h.session.NICInfo.HostAddr4.IP.Is4() {
 		return nil, packet.ErrInvalidIP
 	}
